@@ -26,7 +26,8 @@ import z3  # noqa: E402
 from pyvc import engine, specenv, libmodels, store as store_mod, solve, tables, props, ops  # noqa: E402
 from pyvc.sorts import WRAP, SORTS, fresh  # noqa: E402
 
-OUT = os.path.join(VERIF, "out")
+OUT = os.environ.get("PYVC_OUT") or os.path.join(VERIF, "out")
+NO_EVIDENCE = False
 NATIVE_PY = "/venv/bin/python"
 
 
@@ -71,6 +72,14 @@ class Kit(object):
             return z3.BoolVal(True)
         return ops._z(ops.truth(self._eval(spec["only_when"], bind)))
 
+    def uses(self, target, bname, clause):
+        """record (and check the existence of) a contract clause the composition restates"""
+        b = self.beh(target, bname)
+        kind, name = clause.split(":", 1)
+        if kind == "ensures" and name not in b.ensures:
+            raise engine.CheckerError("composition relies on missing clause %s of %s[%s]" % (clause, target, bname))
+        self.used.append("%s[%s].%s" % (target, bname, clause))
+
     def raises_names(self, target, bname):
         return list(self.beh(target, bname).raises)
 
@@ -95,6 +104,11 @@ def build_executor(plan):
         if hasattr(mod, "PERM_INVARIANT"):
             S.consts["PERM_INVARIANT"] = mod.PERM_INVARIANT
     S.consts["T"] = tables.from_module(brine) if plan.get("table", "module") == "module" else tables.from_reference()
+    import rpyc.core.channel as channel_mod, rpyc.core.stream as stream_mod, errno as errno_mod
+    S.consts["C"] = tables.frame_consts_from_module(channel_mod) if plan.get("table", "module") == "module" else \
+        tables.frame_consts_from_reference(channel_mod)
+    S.consts["ClosedFile"] = stream_mod.ClosedFile
+    S.consts["errno"] = errno_mod
     st = store_mod.Store()
     for m in plan["contracts"]:
         importlib.import_module("contracts." + m).register(st)
@@ -107,10 +121,10 @@ def file_hash(path):
     return hashlib.sha256(open(path, "rb").read()).hexdigest()[:16]
 
 
-def run_native(plan, targets, seed, budget, given=None):
+def run_native(plan, targets, seed, budget, given=None, pid=None):
     """native contract evaluation on the real code, in the repository's interpreter"""
     job = {"repo": REPO, "contracts": plan["contracts"], "spec_modules": plan["specs"], "table": plan.get("table", "module"),
-           "seed": seed, "budget": budget,
+           "seed": seed, "budget": budget, "property": pid,
            "targets": [[t, b, given] if given else [t, b] for t, b in targets]}
     os.makedirs(OUT, exist_ok=True)
     jp = os.path.join(OUT, "native-job-%d-%d.json" % (os.getpid(), int(time.time() * 1000) % 100000))
@@ -228,6 +242,12 @@ def check_property(pid, tier, seed):
             errors.append("solvers disagree on %s: %s" % (o.id, r["times"]))
         else:
             undecided.append((o, r))
+    # vacuity guard: no assumed contract / invariant / precondition may make a path infeasible
+    cone = {t for t in plan["targets"]}
+    canaries = [c for c in ex.canaries if c.meta.get("function") in cone]
+    bad_canaries, n_canaries = solve.check_canaries(canaries, os.path.join(smt_dir, "canary"), timeout=5)
+    for cid, why in bad_canaries:
+        errors.append("contradictory assumption at %s: %s" % (cid, why))
     n_finite_ok = sum(1 for f in finite_results if f["ok"])
     # ---- native runs: counterexamples for failed obligations, stand-in for unsupported functions, sanity
     known = [k for k in load_known() if k.get("property") == pid and k.get("status", "known") == "known"]
@@ -242,7 +262,7 @@ def check_property(pid, tier, seed):
         if (t, b) not in native_targets:
             native_targets.append((t, b))
     budget = 400 if tier == "quick" else 4000
-    nat = run_native(plan, native_targets, seed, budget) if native_targets else []
+    nat = run_native(plan, native_targets, seed, budget, pid=pid) if native_targets else []
     nat_by = {(r["target"], r["behaviour"]): r for r in nat}
     native_fail_reported = set()
     for o, r in failed:
@@ -344,7 +364,8 @@ def check_property(pid, tier, seed):
             "bounded_stand_ins": bounded,
             "native_runs": [{"behaviour": "%s[%s]" % (r.get("target"), r.get("behaviour")), "inputs": r.get("tried"),
                              "satisfying_requires": r.get("satisfying"), "failures": r.get("n_failures", 0)} for r in nat],
-            "vacuity_guards": vac,
+            "vacuity_guards": {"requires_satisfied_natively": vac, "canaries": n_canaries,
+                               "contradictory": [c for c, _ in bad_canaries]},
             "known_findings_matched": [k.get("what") for k, _ in known_hits],
             "checker_errors": errors,
             "source_files": {f: file_hash(os.path.join(REPO, f)) for f in sorted({t.split("::")[0] for t in plan["targets"]})},
@@ -352,8 +373,9 @@ def check_property(pid, tier, seed):
         },
         "assumptions": plan.get("assumptions", []),
     }
-    os.makedirs(os.path.join(VERIF, "evidence"), exist_ok=True)
-    json.dump(evidence, open(os.path.join(VERIF, "evidence", "%s.json" % pid), "w"), indent=1, default=str)
+    if not NO_EVIDENCE:
+        os.makedirs(os.path.join(VERIF, "evidence"), exist_ok=True)
+        json.dump(evidence, open(os.path.join(VERIF, "evidence", "%s.json" % pid), "w"), indent=1, default=str)
     print("%s: %d obligations, %d discharged (%s), %d violation(s), %d undecided, %d checker error(s), %.1fs" % (
         pid, n_obl, n_dis, by_backend, len(violations), len(undecided), len(errors), wall))
     if violations:
@@ -381,7 +403,7 @@ def replay(path):
         print("replay file %s carries no concrete input (obligation %s); solver output is inside the file" % (
             path, rec.get("obligation")))
         return 0
-    res = run_native(plan, [(rec["target"], rec["behaviour"])], 0, 1, given=w)
+    res = run_native(plan, [(rec["target"], rec["behaviour"])], 0, 1, given=w, pid=pid)
     r = res[0]
     if r.get("error"):
         print("replay error: %s" % r["error"][-500:])
@@ -400,7 +422,10 @@ def main():
     ap.add_argument("property", nargs="?")
     ap.add_argument("--tier", default=os.environ.get("VERIF_TIER", "quick"))
     ap.add_argument("--replay")
+    ap.add_argument("--no-evidence", action="store_true", help="self-test runs against scratch copies do not rewrite evidence")
     a = ap.parse_args()
+    global NO_EVIDENCE
+    NO_EVIDENCE = a.no_evidence
     seed = int(os.environ.get("VERIF_SEED", "0") or 0)
     if a.replay:
         sys.exit(replay(a.replay))
